@@ -1,4 +1,16 @@
 // L7: slice-level functions under the heap-allocated BoxedUint arithmetic -- C03 (boxed Karatsuba), C08 (boxed AMM)
+//
+// Everything here is a plain free function over `&[Limb]` / `&mut [Limb]`; `BoxedUint` itself (Box / Vec / iterators) is not touched.
+//   src/uint/mul/karatsuba.rs (alloc part): adc_mul_limbs, conditional_wrapping_neg_assign, karatsuba_mul_limbs, karatsuba_square_limbs
+//   src/uint/mul.rs (alloc part):           mul_limbs, square_limbs          (over l3_mul::schoolbook_multiplication / schoolbook_squaring)
+//   src/modular/boxed_monty_form/mul.rs:    add_mul_carry, add_mul_carry_and_shift, conditional_sub, almost_montgomery_mul, almost_montgomery_mul_by_one
+//   src/limb/bit_not.rs:                    impl Not for Limb  (karatsuba_square_limbs writes `out[i] = !out[i]`)
+// All regions are `body`.  Verus accepts `split_at_mut`, `&mut s[a..b]`, `&mut s[..a]`, `&mut s[a..]`, `s[..a].fill(v)`, `usize::min`,
+// `saturating_sub`, `is_empty` as they stand in /repo (vstd specs).  Assumed library specifications used by this unit:
+//   `<[T]>::fill` (below); `core::panicking::assert_failed` (debug_assert_eq!, in l0_corespec.rs);
+//   `NotSpecImpl for Limb` below is the spec side of the verified `impl Not for Limb` (no assumption).
+// karatsuba_mul_limbs carries `#[verifier::rlimit(40)]`: its straight-line body is one SMT query of ~25-35M rlimit units (about 3 s),
+// slightly above the default budget of 30M; `val` is hidden in the two Karatsuba bodies (all facts about it come from lemmas).
 use vstd::prelude::*;
 use vstd::arithmetic::power::*;
 use vstd::arithmetic::power2::*;
@@ -12,7 +24,6 @@ use crate::l1_choice::*;
 use crate::l1_limb::*;
 use crate::l2_core::*;
 use crate::l3_mul::*;
-use crate::l4_modular::*;
 use crate::l5_monty::*;
 verus! {
 
@@ -1411,6 +1422,15 @@ proof fn lemma_bs_low_word_zero(a: int, k: int, m0: int)
     assert(u * m0 == m0 * u) by (nonlinear_arith);
 }
 
+proof fn lemma_bs_bp_ge(n: nat)
+    requires n >= 1
+    ensures bp(n) >= B()
+{
+    lemma_bp_succ((n - 1) as nat);
+    let p = bp((n - 1) as nat);
+    assert(B() * p >= B()) by (nonlinear_arith) requires p >= 1;
+}
+
 /// k·m0 ≡ -1 (mod B) forces m0 != 0
 proof fn lemma_bs_neg_inv_nonzero(k: int, m0: int)
     requires (k * m0) % B() == B() - 1
@@ -1517,6 +1537,11 @@ proof fn lemma_bs_amm1_final(z: int, xv: int, mv: int, u: int, r: int)
 
 //@@ fn src/modular/boxed_monty_form/mul.rs | - | add_mul_carry | body | props C08 C11
 pub const fn add_mul_carry(z: &mut [Limb], x: &[Limb], y: Limb) -> (ret__: Limb)
+//@+
+    requires old(z).len() == x.len()
+    ensures final(z).len() == old(z).len(),
+        val(final(z)@, x.len() as nat) + ret__.0 as int * bp(x.len() as nat) == val(old(z)@, x.len() as nat) + val(x@, x.len() as nat) * y.0 as int
+//@-
 {
     let n = z.len();
     if n != x.len() {
@@ -1524,9 +1549,25 @@ pub const fn add_mul_carry(z: &mut [Limb], x: &[Limb], y: Limb) -> (ret__: Limb)
     }
     let mut c = Limb::ZERO;
     let mut i = 0;
+//@+
+    let ghost z0 = z@;
+    proof { lemma_bp_succ(0); assert(val(x@, 0) * y.0 as int == 0) by (nonlinear_arith) requires val(x@, 0) == 0; }
+//@-
     while i < n
+//@+
+        invariant i <= n, n == z.len(), n == x.len(), z0.len() == n,
+            forall|k: int| i <= k < n ==> #[trigger] z@[k] == z0[k],
+            val(z@, i as nat) + c.0 as int * bp(i as nat) == val(z0, i as nat) + val(x@, i as nat) * y.0 as int,
+        decreases n - i
+//@-
 {
+//@+
+        let ghost zb = z@; let ghost cb = c;
+//@-
         let (__t0, __t1) = z[i].mac(x[i], y, c); z[i] = __t0; c = __t1;
+//@+
+        proof { lemma_bs_amc_step(z@, zb, z0, x@, i as nat, y.0 as int, c.0 as int, cb.0 as int); }
+//@-
         i += 1;
     }
     c
@@ -1534,6 +1575,12 @@ pub const fn add_mul_carry(z: &mut [Limb], x: &[Limb], y: Limb) -> (ret__: Limb)
 //@@ end
 //@@ fn src/modular/boxed_monty_form/mul.rs | - | add_mul_carry_and_shift | body | props C08 C11
 pub const fn add_mul_carry_and_shift(z: &mut [Limb], x: &[Limb], y: Limb) -> (ret__: Limb)
+//@+
+    requires old(z).len() == x.len(), x.len() >= 1
+    ensures final(z).len() == old(z).len(), final(z)[x.len() - 1] == old(z)[x.len() - 1],
+        val(final(z)@, (x.len() - 1) as nat) * B() + (old(z)[0].0 as int + x[0].0 as int * y.0 as int) % B() + ret__.0 as int * bp(x.len() as nat)
+            == val(old(z)@, x.len() as nat) + val(x@, x.len() as nat) * y.0 as int
+//@-
 {
     let n = z.len();
     if n != x.len() {
@@ -1542,10 +1589,38 @@ pub const fn add_mul_carry_and_shift(z: &mut [Limb], x: &[Limb], y: Limb) -> (re
     let (_, mut c) = z[0].mac(x[0], y, Limb::ZERO);
     let mut i = 1;
     let mut i1 = 0;
+//@+
+    let ghost z0 = z@;
+    let ghost lw = (z0[0].0 as int + x@[0].0 as int * y.0 as int) % B();
+    proof {
+        lemma_bp1();
+        let t = z0[0].0 as int + x@[0].0 as int * y.0 as int;
+        lemma_fundamental_div_mod(t, B());
+        lemma_mod_bound(t, B());
+        // the discarded low limb of the first mac is t % B
+        let l = t - c.0 as int * B();
+        lemma_fundamental_div_mod_converse(t, B(), c.0 as int, l);
+        assert(val(z0, 1) == z0[0].0 as int) by { reveal_with_fuel(val, 2); }
+        assert(val(x@, 1) == x@[0].0 as int) by { reveal_with_fuel(val, 2); }
+        assert(val(z@, 0) * B() == 0) by (nonlinear_arith) requires val(z@, 0) == 0;
+    }
+//@-
     // Help the compiler elide bound checking
     while i < n && i1 < n
+//@+
+        invariant 1 <= i <= n, i1 + 1 == i, n == z.len(), n == x.len(), z0.len() == n,
+            forall|k: int| i1 <= k < n ==> #[trigger] z@[k] == z0[k],
+            val(z@, i1 as nat) * B() + lw + c.0 as int * bp(i as nat) == val(z0, i as nat) + val(x@, i as nat) * y.0 as int,
+        decreases n - i
+//@-
 {
+//@+
+        let ghost zb = z@; let ghost cb = c;
+//@-
         let (__t0, __t1) = z[i].mac(x[i], y, c); z[i1] = __t0; c = __t1;
+//@+
+        proof { lemma_bs_shift_step(z@, zb, z0, x@, i as nat, y.0 as int, lw, c.0 as int, cb.0 as int); }
+//@-
         i += 1;
         i1 += 1;
     }
@@ -1554,6 +1629,11 @@ pub const fn add_mul_carry_and_shift(z: &mut [Limb], x: &[Limb], y: Limb) -> (re
 //@@ end
 //@@ fn src/modular/boxed_monty_form/mul.rs | - | conditional_sub | body | props C08 C11
 pub const fn conditional_sub(z: &mut [Limb], x: &[Limb], c: ConstChoice)
+//@+
+    requires old(z).len() == x.len(), c.wf()
+    ensures final(z).len() == old(z).len(),
+        val(final(z)@, x.len() as nat) == (if c.t() { (val(old(z)@, x.len() as nat) - val(x@, x.len() as nat)) % bp(x.len() as nat) } else { val(old(z)@, x.len() as nat) })
+//@-
 {
     let n = z.len();
     if n != x.len() {
@@ -1561,13 +1641,48 @@ pub const fn conditional_sub(z: &mut [Limb], x: &[Limb], c: ConstChoice)
     }
     let mut borrow = Limb::ZERO;
     let mut i = 0;
+//@+
+    let ghost z0 = z@;
+    proof { lemma_bp1(); }
+//@-
     while i < n
+//@+
+        invariant i <= n, n == z.len(), n == x.len(), z0.len() == n, c.wf(),
+            borrow.0 == 0 || borrow.0 == u64::MAX,
+            forall|k: int| i <= k < n ==> #[trigger] z@[k] == z0[k],
+            c.t() ==> val(z@, i as nat) - bb(borrow) * bp(i as nat) == val(z0, i as nat) - val(x@, i as nat),
+            !c.t() ==> borrow.0 == 0 && val(z@, i as nat) == val(z0, i as nat),
+        decreases n - i
+//@-
 {
+//@+
+        let ghost zb = z@; let ghost b0 = borrow;
+//@-
         let (zi, new_borrow) = z[i].sbb(Limb(c.if_true_word(x[i].0)), borrow);
         z[i] = zi;
         borrow = new_borrow;
+//@+
+        proof {
+            if c.t() {
+                lemma_bs_sbb_step(z@, zb, z0, x@, i as nat, bb(borrow), bb(b0));
+            } else {
+                assert(zi == z0[i as int]);
+                lemma_val_ext(zb, z@, i as nat);
+            }
+        }
+//@-
         i += 1;
     }
+//@+
+    proof {
+        if c.t() {
+            lemma_val_bound(z@, n as nat);
+            let d = val(z0, n as nat) - val(x@, n as nat);
+            assert((-bb(borrow)) * bp(n as nat) == -(bb(borrow) * bp(n as nat))) by (nonlinear_arith);
+            lemma_fundamental_div_mod_converse(d, bp(n as nat), -bb(borrow), val(z@, n as nat));
+        }
+    }
+//@-
 }
 //@@ end
 //@@ fn src/modular/boxed_monty_form/mul.rs | - | almost_montgomery_mul | body | props C08 C11
@@ -1578,6 +1693,16 @@ pub const fn almost_montgomery_mul(
     m: &[Limb],
     k: Limb,
 )
+//@+
+    requires old(z).len() == x.len(), y.len() == x.len(), m.len() == x.len(), x.len() >= 1,
+        neg_inv_ok(k, m[0]),
+        forall|j: int| 0 <= j < old(z).len() ==> old(z)[j].0 == 0,
+    ensures final(z).len() == old(z).len(),
+        0 <= val(final(z)@, x.len() as nat) < bp(x.len() as nat),
+        val(m@, m.len() as nat) > 0,
+        (val(final(z)@, x.len() as nat) * bp(x.len() as nat)) % val(m@, m.len() as nat) == (val(x@, x.len() as nat) * val(y@, y.len() as nat)) % val(m@, m.len() as nat),
+        (val(x@, x.len() as nat) < val(m@, m.len() as nat) && val(y@, y.len() as nat) < val(m@, m.len() as nat)) ==> val(final(z)@, x.len() as nat) < 2 * val(m@, m.len() as nat),
+//@-
 {
     let n = z.len();
     // This preconditions check allows compiler to remove bound checks later in the code.
@@ -1586,24 +1711,95 @@ pub const fn almost_montgomery_mul(
     }
     let mut ts = Limb::ZERO;
     let mut i = 0;
+//@+
+    let ghost nn = n as nat; let ghost r = bp(nn);
+    let ghost xv = val(x@, nn); let ghost yv = val(y@, nn); let ghost mv = val(m@, nn);
+    let ghost mut uacc: int = 0;
+    proof {
+        lemma_val_bound(x@, nn); lemma_val_bound(y@, nn); lemma_val_bound(m@, nn);
+        lemma_val_zero(z@, nn); lemma_bp_succ(0); lemma_bp_succ((nn - 1) as nat);
+        lemma_bs_neg_inv_nonzero(k.0 as int, m@[0].0 as int);
+        lemma_val_low(m@, nn);
+        assert(xv * val(y@, 0) + mv * uacc == 0) by (nonlinear_arith) requires val(y@, 0) == 0, uacc == 0;
+        assert((val(z@, nn) + ts.0 as int * r) * bp(0) == 0) by (nonlinear_arith) requires val(z@, nn) == 0, ts.0 == 0;
+    }
+//@-
     while i < n
+//@+
+        invariant i <= n, n == z.len(), n == x.len(), n == y.len(), n == m.len(), n >= 1, nn == n, r == bp(nn),
+            xv == val(x@, nn), mv == val(m@, nn), 0 <= xv < r, 0 < mv < r,
+            neg_inv_ok(k, m[0]), ts.0 <= 1,
+            0 <= uacc < bp(i as nat),
+            (val(z@, nn) + ts.0 as int * r) * bp(i as nat) == xv * val(y@, i as nat) + mv * uacc,
+        decreases n - i
+//@-
 {
+//@+
+        let ghost zs = z@; let ghost ts0 = ts;
+//@-
         let mut c = add_mul_carry(z, x, y[i]);
+//@+
+        let ghost za = z@; let ghost c1 = c;
+//@-
         let (__t0, __t1) = ts.overflowing_add(c); ts = __t0; c = __t1;
         let ts1 = c;
         let t = z[0].wrapping_mul(k);
+//@+
+        let ghost tsp = ts;
+//@-
         c = add_mul_carry_and_shift(z, m, t);
+//@+
+        let ghost zb = z@; let ghost c3 = c;
+//@-
         let (__t2, __t3) = ts.overflowing_add(c); z[n - 1] = __t2; c = __t3;
+//@+
+        proof { lemma_small_mod((ts1.0 + c.0) as nat, B() as nat); }
+//@-
         ts = ts1.wrapping_add(c);
+//@+
+        proof {
+            let a = za[0].0 as int; let m0 = m@[0].0 as int;
+            lemma_bs_low_word_zero(a, k.0 as int, m0);
+            lemma_val_ext(zb, z@, (nn - 1) as nat);
+            lemma_val_step(z@, (nn - 1) as nat);
+            lemma_val_bound(zb, (nn - 1) as nat);
+            lemma_val_bound(y@, i as nat);
+            lemma_bp_succ((nn - 1) as nat); lemma_bp_succ(i as nat);
+            assert(bp(nn) == bp((nn - 1) as nat) * B()) by (nonlinear_arith) requires bp(nn) == B() * bp((nn - 1) as nat);
+            lemma_bs_amm_step(r, bp((nn - 1) as nat), bp(i as nat), val(zs, nn), ts0.0 as int, xv, y@[i as int].0 as int, mv, t.0 as int,
+                val(za, nn), c1.0 as int, tsp.0 as int, ts1.0 as int, val(zb, (nn - 1) as nat), c3.0 as int, __t2.0 as int, c.0 as int, ts.0 as int,
+                val(y@, i as nat), uacc);
+            uacc = uacc + t.0 as int * bp(i as nat);
+            lemma_val_step(y@, i as nat);
+            assert(bp(i as nat) * B() == bp((i + 1) as nat)) by (nonlinear_arith) requires bp((i + 1) as nat) == B() * bp(i as nat);
+        }
+//@-
         i += 1;
     }
     // If the result overflows the integer size, subtract the modulus.
     let overflow = ConstChoice::from_word_lsb(ts.0);
+//@+
+    let ghost zf = z@;
+    proof { lemma_val_bound(zf, nn); lemma_val_bound(y@, nn); }
+//@-
     conditional_sub(z, m, overflow);
+//@+
+    proof { lemma_bs_amm_final(val(zf, nn), ts.0 as int, val(z@, nn), xv, yv, mv, uacc, r); }
+//@-
 }
 //@@ end
 //@@ fn src/modular/boxed_monty_form/mul.rs | - | almost_montgomery_mul_by_one | body | props C08 C11
 pub const fn almost_montgomery_mul_by_one(z: &mut [Limb], x: &[Limb], m: &[Limb], k: Limb)
+//@+
+    requires old(z).len() == x.len(), m.len() == x.len(), x.len() >= 1,
+        neg_inv_ok(k, m[0]),
+        forall|j: int| 0 <= j < old(z).len() ==> old(z)[j].0 == 0,
+    ensures final(z).len() == old(z).len(),
+        val(m@, m.len() as nat) > 0,
+        0 <= val(final(z)@, x.len() as nat) <= val(m@, m.len() as nat),
+        (val(final(z)@, x.len() as nat) * bp(x.len() as nat)) % val(m@, m.len() as nat) == val(x@, x.len() as nat) % val(m@, m.len() as nat),
+        val(x@, x.len() as nat) < val(m@, m.len() as nat) ==> val(final(z)@, x.len() as nat) < val(m@, m.len() as nat),
+//@-
 {
     let n = z.len();
     // This preconditions check allows compiler to remove bound checks later in the code.
@@ -1612,23 +1808,95 @@ pub const fn almost_montgomery_mul_by_one(z: &mut [Limb], x: &[Limb], m: &[Limb]
     }
     let mut ts = Limb::ZERO;
     let mut i = 0;
+//@+
+    let ghost nn = n as nat; let ghost r = bp(nn);
+    let ghost xv = val(x@, nn); let ghost mv = val(m@, nn);
+    let ghost mut uacc: int = 0;
+    let ghost mut yacc: int = 0;
+    proof {
+        lemma_val_bound(x@, nn); lemma_val_bound(m@, nn);
+        lemma_val_zero(z@, nn); lemma_bp_succ(0); lemma_bp_succ((nn - 1) as nat);
+        lemma_bs_neg_inv_nonzero(k.0 as int, m@[0].0 as int);
+        lemma_val_low(m@, nn);
+        assert(xv * yacc + mv * uacc == 0) by (nonlinear_arith) requires yacc == 0, uacc == 0;
+        assert((val(z@, nn) + ts.0 as int * r) * bp(0) == 0) by (nonlinear_arith) requires val(z@, nn) == 0, ts.0 == 0;
+    }
+//@-
     while i < n
+//@+
+        invariant i <= n, n == z.len(), n == x.len(), n == m.len(), n >= 1, nn == n, r == bp(nn),
+            xv == val(x@, nn), mv == val(m@, nn), 0 <= xv < r, 0 < mv < r,
+            neg_inv_ok(k, m[0]), ts.0 <= 1,
+            0 <= uacc < bp(i as nat), yacc == (if i == 0 { 0int } else { 1int }),
+            (val(z@, nn) + ts.0 as int * r) * bp(i as nat) == xv * yacc + mv * uacc,
+        decreases n - i
+//@-
 {
+//@+
+        let ghost zs = z@; let ghost ts0 = ts;
+        let ghost yi: int = if i == 0 { 1 } else { 0 };
+//@-
         let mut c = if i == 0 {
             add_mul_carry(z, x, Limb::ONE)
         } else {
             Limb::ZERO
         };
+//@+
+        let ghost za = z@; let ghost c1 = c;
+        proof {
+            assert(xv * yi == (if i == 0 { xv } else { 0 })) by (nonlinear_arith) requires yi == (if i == 0 { 1int } else { 0int });
+            assert(0 * r == 0);
+        }
+//@-
         let (__t0, __t1) = ts.overflowing_add(c); ts = __t0; c = __t1;
         let ts1 = c;
         let t = z[0].wrapping_mul(k);
+//@+
+        let ghost tsp = ts;
+//@-
         c = add_mul_carry_and_shift(z, m, t);
+//@+
+        let ghost zb = z@; let ghost c3 = c;
+//@-
         let (__t2, __t3) = ts.overflowing_add(c); z[n - 1] = __t2; c = __t3;
+//@+
+        proof { lemma_small_mod((ts1.0 + c.0) as nat, B() as nat); }
+//@-
         ts = ts1.wrapping_add(c);
+//@+
+        proof {
+            let a = za[0].0 as int; let m0 = m@[0].0 as int;
+            lemma_bs_low_word_zero(a, k.0 as int, m0);
+            lemma_val_ext(zb, z@, (nn - 1) as nat);
+            lemma_val_step(z@, (nn - 1) as nat);
+            lemma_val_bound(zb, (nn - 1) as nat);
+            lemma_bp_succ((nn - 1) as nat); lemma_bp_succ(i as nat);
+            assert(bp(nn) == bp((nn - 1) as nat) * B()) by (nonlinear_arith) requires bp(nn) == B() * bp((nn - 1) as nat);
+            if i >= 1 { lemma_bs_bp_ge(i as nat); }
+            lemma_bs_amm_step(r, bp((nn - 1) as nat), bp(i as nat), val(zs, nn), ts0.0 as int, xv, yi, mv, t.0 as int,
+                val(za, nn), c1.0 as int, tsp.0 as int, ts1.0 as int, val(zb, (nn - 1) as nat), c3.0 as int, __t2.0 as int, c.0 as int, ts.0 as int,
+                yacc, uacc);
+            uacc = uacc + t.0 as int * bp(i as nat);
+            assert(yi * bp(i as nat) == (if i == 0 { 1int } else { 0int })) by (nonlinear_arith) requires yi == (if i == 0 { 1int } else { 0int }), i == 0 ==> bp(i as nat) == 1;
+            yacc = 1;
+            assert(bp(i as nat) * B() == bp((i + 1) as nat)) by (nonlinear_arith) requires bp((i + 1) as nat) == B() * bp(i as nat);
+        }
+//@-
         i += 1;
     }
     // If the result overflows the integer size, subtract the modulus.
     let overflow = ConstChoice::from_word_lsb(ts.0);
+//@+
+    let ghost zf = z@;
+    proof {
+        lemma_val_bound(zf, nn);
+        assert(xv * yacc == xv) by (nonlinear_arith) requires yacc == 1;
+        lemma_bs_amm1_final(val(zf, nn) + ts.0 as int * r, xv, mv, uacc, r);
+        // Z <= m < R: the top word is zero and nothing is subtracted
+        assert(ts.0 == 0) by (nonlinear_arith) requires val(zf, nn) + ts.0 as int * r < r, val(zf, nn) >= 0, r > 0;
+        assert(0 * r == 0);
+    }
+//@-
     conditional_sub(z, m, overflow);
 }
 //@@ end
